@@ -229,8 +229,11 @@ class Projector:
                 rest.append(('S', st.DescriptorHandle, st.StateVersion, st.DescriptorVersion, content(st)))
         rest.sort(key=lambda x: (x[0], x[1]))
         unknown_ctx.sort(key=lambda x: x[0])
+        # the versions remembered for removed objects (handle_version_lookup): state of the MDIB that no lookup shows
+        saved = [sorted((str(k), v) for k, v in getattr(t, 'handle_version_lookup', {}).items())
+                 for t in (mdib.descriptions, mdib.states, mdib.context_states)]
         return {'mver': mdib.mdib_version, 'D': D, 'S': S, 'C': C,
-                'rest': self.tokens.tok([rest, unknown_ctx]),
+                'rest': self.tokens.tok([rest, unknown_ctx]), 'saved': self.tokens.tok(['saved', saved]),
                 'agree': table_agrees(mdib.descriptions) and table_agrees(mdib.states)
                 and table_agrees(mdib.context_states),
                 'refall': ref_consistent(mdib)}
